@@ -5,7 +5,7 @@ import openmdao.api as om
 from . import core, gen
 
 
-def build_struct(surface, loads, load_factor=1.0, extra=None):
+def build_struct(surface, loads, load_factor=1.0, extra=None, setup_kw=None):
     """SpatialBeamAlone fed by constant loads [ny,6]"""
     from openaerostruct.structures.struct_groups import SpatialBeamAlone
     prob = om.Problem(reports=False)
@@ -20,12 +20,12 @@ def build_struct(surface, loads, load_factor=1.0, extra=None):
     prob.model.add_subsystem(surface["name"], g)
     with warnings.catch_warnings():
         warnings.simplefilter("ignore")
-        prob.setup()
+        prob.setup(**(setup_kw or {}))
     return prob
 
 
 def build_aerostruct(surfaces, v=248.136, alpha=5.0, beta=0.0, Mach=0.84, re=1.0e6, rho=0.38, CT=9.80665 * 17.0e-6, R=11.165e6,
-                     W0=0.4 * 3e5, a=295.4, load_factor=1.0, empty_cg=(0, 0, 0), npoints=1, compressible=False, point_kw=None, solver=None):
+                     W0=0.4 * 3e5, a=295.4, load_factor=1.0, empty_cg=(0, 0, 0), npoints=1, compressible=False, point_kw=None, solver=None, setup_kw=None, pre_setup=None):
     from openaerostruct.integration.aerostruct_groups import AerostructGeometry, AerostructPoint
     prob = om.Problem(reports=False)
     ivc = om.IndepVarComp()
@@ -36,6 +36,10 @@ def build_aerostruct(surfaces, v=248.136, alpha=5.0, beta=0.0, Mach=0.84, re=1.0
     ivc.add_output("empty_cg", val=np.array(empty_cg, dtype=float), units="m")
     any_pm = any("n_point_masses" in s for s in surfaces)
     prob.model.add_subsystem("prob_vars", ivc, promotes=["*"])
+    if any(s.get("distributed_fuel_weight", False) for s in surfaces):
+        # (before the points: an independent variable placed after its consumers would be a feedback connection,
+        #  which the top-level run-once solvers do not differentiate through)
+        prob.model.add_subsystem("fuel", om.IndepVarComp("fuel_mass", val=10000.0, units="kg"), promotes=["*"])
     for s in surfaces:
         prob.model.add_subsystem(s["name"], AerostructGeometry(surface=s))
     for i in range(npoints):
@@ -67,11 +71,11 @@ def build_aerostruct(surfaces, v=248.136, alpha=5.0, beta=0.0, Mach=0.84, re=1.0
                 prob.model.connect("fuel_mass", pn + ".coupled." + name + ".struct_states.fuel_mass")
         if solver is not None:
             solver(getattr(prob.model, pn))
-    if any(s.get("distributed_fuel_weight", False) for s in surfaces):
-        prob.model.add_subsystem("fuel", om.IndepVarComp("fuel_mass", val=10000.0, units="kg"), promotes=["*"])
+    if pre_setup is not None:
+        pre_setup(prob)
     with warnings.catch_warnings():
         warnings.simplefilter("ignore")
-        prob.setup()
+        prob.setup(**(setup_kw or {}))
     for i in range(npoints):
         getattr(prob.model, "AS_point_%d" % i).coupled.nonlinear_solver.options["iprint"] = -1
     return prob
